@@ -13,11 +13,25 @@ pub const NKEYS: usize = 3;
 pub const VLENS: [usize; 4] = [0, 8, 30, 600];
 pub const NSYM: usize = NKEYS * VLENS.len();
 
+/// Bulk keys of three different lengths sharing prefixes: id -> u16 BE of id / 3, followed by
+/// nothing, [00] or [00, 7F] — byte-wise order differs from (length, bytes) order and from an order
+/// on a fixed-width prefix.
+pub fn bulk_key(id: usize) -> Vec<u8> {
+    let mut k = ((id / 3) as u16).to_be_bytes().to_vec();
+    match id % 3 {
+        0 => {}
+        1 => k.push(0x00),
+        _ => k.extend_from_slice(&[0x00, 0x7F]),
+    }
+    k
+}
+
 pub fn key(id: usize) -> Vec<u8> {
     match id {
         0 => vec![],
-        1 => vec![0x61],
-        2 => vec![0x62, 0x62],
+        // lexicographic: "" < "ab" < "b"; by length it would be "" < "b" < "ab"
+        1 => vec![0x62],
+        2 => vec![0x61, 0x62],
         _ => unreachable!(),
     }
 }
@@ -26,7 +40,7 @@ pub fn key(id: usize) -> Vec<u8> {
 pub enum Inserts {
     /// symbols: key id * 4 + value size class; values are tagged with the insertion index
     Symbols(Vec<u8>),
-    /// n entries, key = (i * 7919 % keys) as u16 BE, value = tagged piece of `vlen` bytes
+    /// n entries, key = bulk_key(i * 7919 % keys) (three lengths, shared prefixes), value = tagged piece of `vlen` bytes
     Bulk { n: usize, keys: usize, vlen: usize },
     /// like Bulk with keys padded to `klen` bytes (chunks with many data blocks and cut index blocks)
     BulkLong { n: usize, keys: usize, klen: usize, vlen: usize },
@@ -40,9 +54,7 @@ impl Inserts {
                 .enumerate()
                 .map(|(i, s)| (key(*s as usize / VLENS.len()), piece(i, VLENS[*s as usize % VLENS.len()])))
                 .collect(),
-            Inserts::Bulk { n, keys, vlen } => (0..*n)
-                .map(|i| ((((i * 7919) % keys) as u16).to_be_bytes().to_vec(), piece(i, *vlen)))
-                .collect(),
+            Inserts::Bulk { n, keys, vlen } => (0..*n).map(|i| (bulk_key((i * 7919) % keys), piece(i, *vlen))).collect(),
             Inserts::BulkLong { n, keys, klen, vlen } => (0..*n)
                 .map(|i| {
                     let mut k = (((i * 7919) % keys) as u16).to_be_bytes().to_vec();
@@ -333,7 +345,8 @@ pub fn run(tier: Tier) -> i32 {
                         cfg.dump_threshold = None;
                     }
                     cfg.parallel = true;
-                    par.push(Case { inserts: Inserts::Bulk { n, keys: 1000, vlen: 8 }, cfg, how: Extraction::Stream, pool });
+                    let how = EXTRACTIONS[(pool + n / 1000) % 3];
+                    par.push(Case { inserts: Inserts::Bulk { n, keys: 1000, vlen: 8 }, cfg, how, pool });
                 }
             }
         }
